@@ -2457,10 +2457,12 @@ class BinaryQuadraticModel(QuadraticViewsMixin):
                     quadratic.biases[order],
                     )
 
+        # only a floating dtype may absorb the offset: integer linear biases must not truncate it
+        offset = ldata.dtype.type(self.offset) if ldata.dtype.kind == 'f' else self.offset
         if return_labels:
-            return LabelledBQMVectors(ldata, quadratic, ldata.dtype.type(self.offset), variable_order)
+            return LabelledBQMVectors(ldata, quadratic, offset, variable_order)
         else:
-            return BQMVectors(ldata, quadratic, ldata.dtype.type(self.offset))
+            return BQMVectors(ldata, quadratic, offset)
 
     def to_qubo(self) -> Tuple[Mapping[Tuple[Variable, Variable], Bias], Bias]:
         """Convert a binary quadratic model to QUBO format.
